@@ -297,3 +297,28 @@ NOT_COVERED = [
     "wrap_component_js/css end-tag guards are not yet under contract",
     "HTML-parser reading of the output is represented by the two escaping lemmas only",
 ]
+
+
+def _f13a(w):
+    from django_components.attributes import append_attributes
+    try:
+        append_attributes(*[tuple(p) for p in w["args"]])
+        return False
+    except TypeError:
+        return True
+
+
+def _f13b(w):
+    from html.parser import HTMLParser
+    from django_components.attributes import attributes_to_string
+    out = attributes_to_string(w["attributes"])
+    got = []
+
+    class Pp(HTMLParser):
+        def handle_starttag(self, tag, attrs):
+            got.extend(attrs)
+    Pp().feed(f"<div {out}>")
+    return dict(got) != dict(w["attributes"])
+
+
+FINDING_REPLAYS = {"F-C13a": _f13a, "F-C13b": _f13b}
